@@ -3,6 +3,7 @@ package main
 import (
 	"fmt"
 	"go/token"
+	"go/types"
 	"sort"
 	"strings"
 
@@ -19,6 +20,7 @@ func init() {
 			"C05.deterministic-order: no element is encoded inside a range over a map; the xattr keys collected from the map are sorted before they are encoded; the disk reader walks with filepath.Walk (lexical order). " +
 			"C05.field-mapping: tar() fills Entry{UID,GID,Mode,MTime}, Symlink.Target, Device{Major,Minor}, Payload.Data from the like-named File fields; ArchiveDecoder.Next fills every Node* field from the like-named element field; LocalFS.Next and TarReader.Next fill File from the stat/tar header and clean the path. " +
 			"C05.restore-matrix: every LocalFS.Create* sets owner (unless NoSameOwner), xattrs, mode (unless NoSamePermissions) and times on the joined path, and never changes the owner after the mode (chown clears set-id bits). C05.restore-times: known findings (directory times set before children exist; epoch sentinel). " +
+			"C05.names-opaque: tar(), the fs readers, ArchiveDecoder.Next, UnTar/UnTarIndex and LocalFS.Create* look at entry names and paths only through path.Dir/Base/Join/Clean and equality - no prefix/suffix/substring/relative-path/pattern test or byte indexing (names are arbitrary byte strings). " +
 			"C05.ordered-reassembly: in UnTarIndex the chunk data channels are handed to the assembler by the single feeder that ranges over index.Chunks in order.",
 		NotDecided: "equality of the unpacked tree; xattr/device semantics of the OS; gnu-tar and mtree writers; symlink times.",
 		Rules: []rule{
@@ -30,6 +32,10 @@ func init() {
 			{"C05.restore-matrix", "owner, xattrs, mode and times are restored by every Create*; owner before mode", 10, c05RestoreMatrix},
 			{"C05.restore-times", "modification times are restored (two recorded findings)", 2, c05RestoreTimes},
 			{"C05.ordered-reassembly", "untar -i reassembles the chunk stream in index order", 2, c05Ordered},
+			{"C05.names-opaque", "the traversal looks at names only through Dir/Base/Join and equality", 2, c05NamesOpaque},
+			{"C05.side-goroutine-errors", "the error of the Tar goroutine is consulted before the command reports success", 2, func(c *Ctx) {
+				c.sideGoroutineErrors(func(k string) bool { return strings.HasPrefix(k, "cmd.") })
+			}},
 			{"C05.errors-not-dropped", "no error of the operations this property depends on is dropped", 1, func(c *Ctx) { c.errorsNotDropped("C05") }},
 		},
 	})
@@ -38,7 +44,7 @@ func init() {
 // flagLeaves walks the expression assembled into FeatureFlags.
 type flagLeaf struct {
 	v      ssa.Value
-	masked bool           // under &^ <mask containing the bit>
+	masked bool            // under &^ <mask containing the bit>
 	via    *ssa.BasicBlock // predecessor block when reached through a phi edge
 	phi    *ssa.Phi
 }
@@ -659,7 +665,7 @@ func c05Ordered(c *Ctx) {
 	c.verdict(okOne, "UnTarIndex:single-feeder", fn.Pos(), "exactly one goroutine hands data channels to the assembler", fmt.Sprintf("%d senders on the assembler channel: chunk order is not defined", len(senders)))
 	if okOne {
 		f := senders[0]
-		hdr, _, _ := loopOverLen(f, func(os []string) bool { return contains(os, "field:Index.Chunks") && !contains(os, "subslice") })
+		hdr, _, _ := loopOverLen(f, func(os []string) bool { return len(os) == 1 && contains(os, "field:Index.Chunks") })
 		// started once
 		starts := 0
 		for _, g := range calls(fn, named(egGo)) {
@@ -674,4 +680,68 @@ func c05Ordered(c *Ctx) {
 		}
 		c.verdict(hdr != nil && starts == 1, "UnTarIndex:in-index-order", f.Pos(), "the feeder ranges over index.Chunks in order and runs once", "the feeder does not range over the whole of index.Chunks in order, or is started more than once")
 	}
+}
+
+// c05NamesOpaque: entry names range over every byte string without '/' and NUL, so the
+// traversal code may look at a name or path only through path.Dir/Base/Join/Clean and
+// (in)equality.  A prefix, suffix, substring, pattern or relative-path test over a name
+// treats some legal names differently from others (e.g. a sibling called "..data").
+var namePredicateExceptions = map[string]string{
+	"ArchiveDecoder.Next|strings.IndexRune": "splits an xattr element at its NUL separator; the operand is FormatXAttr.NameAndValue, not an entry name",
+}
+
+func c05NamesOpaque(c *Ctx) {
+	var scope []*ssa.Function
+	add := func(f *ssa.Function) {
+		if f != nil {
+			scope = append(scope, withClosures(f)...)
+		}
+	}
+	add(c.mustFn("tar"))
+	add(c.mustFn("ArchiveDecoder.Next"))
+	add(c.mustFn("UnTar"))
+	add(c.mustFn("UnTarIndex"))
+	add(c.mustFn("TarReader.Next"))
+	add(c.mustFn("LocalFS.Next"))
+	for _, fn := range c.Funcs {
+		k := fnKey(fn)
+		if strings.HasPrefix(k, "fsBufReader.") || strings.HasPrefix(k, "LocalFS.Create") || strings.HasPrefix(k, "LocalFS.initForReading") {
+			scope = append(scope, fn)
+		}
+	}
+	opaque, sites := 0, 0
+	seen := map[*ssa.Function]bool{}
+	for _, fn := range scope {
+		if seen[fn] {
+			continue
+		}
+		seen[fn] = true
+		instrs(fn, func(_ *ssa.BasicBlock, _ int, ins ssa.Instruction) {
+			switch x := ins.(type) {
+			case ssa.CallInstruction:
+				name := callee(x)
+				switch {
+				case name == "path.Dir" || name == "path.Base" || name == "path.Clean" || name == "path.Join" ||
+					name == "path/filepath.Dir" || name == "path/filepath.Base" || name == "path/filepath.Join" || name == "path/filepath.Clean":
+					opaque++
+				case (strings.HasPrefix(name, "strings.") && name != "strings.Join") || name == "path/filepath.Rel" || strings.HasSuffix(name, ".Match") ||
+					name == "path/filepath.HasPrefix" || name == "path/filepath.Split" || name == "path.Split" || name == "path/filepath.Ext" || name == "path.Ext" ||
+					strings.HasPrefix(name, "bytes.Has") || strings.HasPrefix(name, "bytes.Contains") || strings.HasPrefix(name, "(*regexp.Regexp)"):
+					sites++
+					key := fmt.Sprintf("%s:%s", fnKey(fn), name)
+					if why, ok := namePredicateExceptions[fnKey(fn)+"|"+name]; ok {
+						c.info(key, ins.Pos(), "exception: %s", why)
+						return
+					}
+					c.bad(key, ins.Pos(), "%s inspects the characters of a name or path inside the archive traversal: names are arbitrary byte strings (anything but '/' and NUL), so a prefix/suffix/substring/relative-path test treats some legal names differently from their siblings; compare path.Dir/path.Base results for equality instead", name)
+				}
+			case *ssa.Lookup:
+				if b, ok := x.X.Type().Underlying().(*types.Basic); ok && b.Info()&types.IsString != 0 {
+					sites++
+					c.bad(fmt.Sprintf("%s:string-index", fnKey(fn)), ins.Pos(), "a byte of a name/path string is inspected inside the archive traversal; names are opaque")
+				}
+			}
+		})
+	}
+	c.ok("traversal:names-opaque", 0, "%d traversal functions; %d path.Dir/Base/Join/Clean uses; %d character-level tests (all frozen exceptions)", len(seen), opaque, sites)
 }
